@@ -27,7 +27,8 @@ class Inputs(html.parser.HTMLParser):
 
 class World(object):
     def __init__(self, allow_unsolicited, forget):
-        self.sp = env.make_sp(env.sp_config(allow_unsolicited=allow_unsolicited))      # long-lived, one per behaviour
+        self.sp = env.make_sp(env.sp_config(allow_unsolicited=allow_unsolicited,
+                                            metadata_xml=[env.idp_metadata(slo=env.IDP1_SLO)]))      # long-lived, one per behaviour
         self.idp = env.make_idp(env.idp_config())
         self.forget = forget
         self.outstanding = {}
@@ -80,6 +81,14 @@ class World(object):
         if name == 'Logout':
             self.sp.local_logout(self.name_id(op['user']))
             return {}
+        if name == 'IdPLogout':
+            from saml2_tophat.soap import make_soap_enveloped_saml_thingy
+            import xml.etree.ElementTree as ET
+            rid, req = self.idp.create_logout_request(env.SP_SLO, env.SP, name_id=self.name_id(op['user']))
+            info = self.sp.handle_logout_request(make_soap_enveloped_saml_thingy(req), self.name_id(op['current']), env.BINDING_SOAP)
+            data = info['data'] if isinstance(info['data'], bytes) else info['data'].encode('utf-8')
+            codes = [e.get('Value').rsplit(':', 1)[1] for e in ET.fromstring(data).iter('{%s}StatusCode' % sb.NS_SAMLP)]
+            return {'status': 'Success' if codes == ['Success'] else codes[-1]}
         if name == 'Expire':
             spc.CLOCK.now += 3600
             return {}
@@ -114,6 +123,9 @@ def replay(case):
                 if got['accepted'] and got['who'] != 'subject-' + op['user']:
                     problems.append({'step': k, 'op': op, 'what': 'accepted identity %s, expected subject-%s' % (got['who'], op['user'])})
                     break
+            if op['op'] == 'IdPLogout' and got['status'] != op['status']:
+                problems.append({'step': k, 'op': op, 'what': 'the SP answers the logout request with %s, the model says %s' % (got['status'], op['status'])})
+                break
             want = {'outstanding': sorted(st['outstanding']), 'sessions': sorted(st['sessions'])}
             have = w.project(['u1', 'u2'])
             if have != want:
